@@ -12,10 +12,11 @@ Rec  == ndJsonDeserialize(IOEnv.TRACE)
 SkipSeq == ndJsonDeserialize(IOEnv.SKIP)
 Skip == {SkipSeq[i] : i \in 1..Len(SkipSeq)}
 
-VARIABLES l, cm, st
-vars == <<l, cm, st>>
+VARIABLES l, cm, st, memo, tseq
+vars == <<l, cm, st, memo, tseq>>
 
 Init == l = 1 /\ cm = [G1 |-> InitRegs, G2 |-> InitRegs] /\ st = InitStream
+        /\ memo = <<>> /\ tseq = <<>>
 
 Stateless(e) ==
   CASE e.op = "fp"   -> JudgeFp(e)
@@ -50,22 +51,44 @@ Stateless(e) ==
 
 IsStateful(e) == e.op \in {"cm"}
 
+(***************************************************************************)
+(* C20 (module Concurrent, inlined): the library is specified as a pure    *)
+(* function of its arguments, so the specification has no shared variable: *)
+(* memo remembers the value of every operation instance of the sequential  *)
+(* reference run (each of which is judged against the mathematics like any *)
+(* other event); every later execution of the instance - in another order, *)
+(* from another thread, while other threads run - must return exactly that *)
+(* value.  tseq checks that no event of a thread was lost or reordered.    *)
+(***************************************************************************)
+Memoize(e) ==
+  IF "inst" \in DOMAIN e
+  THEN /\ (e.inst \in DOMAIN memo => memo[e.inst] = e.out)
+       /\ memo' = (e.inst :> e.out) @@ memo
+  ELSE UNCHANGED memo
+
 Next ==
   /\ l <= Len(Rec)
   /\ l' = l + 1
   /\ LET e == Rec[l] IN
-     IF l \in Skip THEN UNCHANGED <<cm, st>>
+     IF l \in Skip THEN UNCHANGED <<cm, st, memo, tseq>>
+     ELSE IF e.op = "ret" THEN
+        /\ ~e.panic
+        /\ e.inst \in DOMAIN memo
+        /\ (e.val = memo[e.inst]) = TRUE
+        /\ e.seq = (IF e.t \in DOMAIN tseq THEN tseq[e.t] ELSE 0) + 1
+        /\ tseq' = (e.t :> e.seq) @@ tseq
+        /\ UNCHANGED <<cm, st, memo>>
      ELSE IF e.op = "cm" THEN
         /\ ~e.panic
         /\ LET r == CmStep(e.g, cm[e.g], e) IN r[1] = TRUE /\ cm' = [cm EXCEPT ![e.g] = r[2]]
-        /\ UNCHANGED st
+        /\ UNCHANGED <<st, tseq>> /\ Memoize(e)
      ELSE IF e.op = "st" THEN
         /\ ~e.panic
         /\ LET r == StStep(st, e) IN r[1] = TRUE /\ st' = r[2]
-        /\ UNCHANGED cm
+        /\ UNCHANGED <<cm, tseq>> /\ Memoize(e)
      ELSE /\ ~e.panic
           /\ Stateless(e) = TRUE      \* "= TRUE": evaluate the judge as a value, not as an action
-          /\ UNCHANGED <<cm, st>>
+          /\ UNCHANGED <<cm, st, tseq>> /\ Memoize(e)
 
 Spec == Init /\ [][Next]_vars
 
